@@ -13,7 +13,8 @@ RULE = ("A case is (1-3 hosts answering the discovery probe with well-formed V2 
         "dashes, spaces; discovery_packets 1..4). Each host answers only a probe that the reference codec "
         "verifies as the well-formed signed probe, and records to which ports and how often it was sent. Part "
         "'type_bytes' enumerates all 256 appliance type bytes x 2 letter cases x 2 versions; 'random' draws the rest. "
-        "Distinct = distinct plan; non-trivial = every case.")
+        "Distinct = distinct plan; non-trivial = every case."
+        " Later additions: auto-connect against units that answer slowly / never / refuse / are unreachable (plain OSError), part 'two_event_loops_in_one_process'.")
 ASSUMPTIONS = [
     "discovery reply envelope as calibrated against the two captured replies (V2 and V3)",
     "the probe real devices answer = the captured 72-byte signed packet format (marker, 0x0111, LE length, 0x0092, "
